@@ -39,9 +39,9 @@ import re
 # See http://stackoverflow.com/questions/2532053/validate-a-hostname-string
 # Note underscores are valid in domain names, but strictly invalid in host
 # names.  We ignore that distinction.
-PROTOCOL_REGEX = re.compile('[A-Za-z][A-Za-z0-9+-.]+$')
-LABEL_REGEX = re.compile('^[a-z0-9_]([a-z0-9-_]{0,61}[a-z0-9_])?$', re.IGNORECASE)
-NUMERIC_REGEX = re.compile('[0-9]+$')
+PROTOCOL_REGEX = re.compile(r'[A-Za-z][A-Za-z0-9+-.]+\Z')
+LABEL_REGEX = re.compile(r'^[a-z0-9_]([a-z0-9-_]{0,61}[a-z0-9_])?\Z', re.IGNORECASE)
+NUMERIC_REGEX = re.compile(r'[0-9]+\Z')
 
 
 def is_valid_hostname(hostname):
